@@ -345,10 +345,10 @@ class RealWorld(object):
         out = []
         for n in self.fit:
             v = float(model[n])
-            out.append(v if self.pri[n][0] in ('uniform', 'gauss') else math.log10(v))
+            out.append(v if self.pri[n][0] in ('uniform', 'gauss') else safe_log10(v))
         for n in self.unf:
             v = float(model[n])
-            out.append(v if self.unf_space[n] == 'lin' else math.log10(v))
+            out.append(v if self.unf_space[n] == 'lin' else safe_log10(v))
         return [scaled(v) for v in out]
 
     def random_x(self):
@@ -381,6 +381,10 @@ class RealWorld(object):
              zip(self.twin_obs.spectrum, binned, self.twin_obs.errorBar)]
         chi2 = math.fsum(v * v for v in z)
         return 'ok', z, chi2
+
+
+def safe_log10(v):
+    return math.log10(v) if v > 0 else float('nan')
 
 
 def scaled(v):
@@ -505,6 +509,9 @@ def run_traces(ctx, ntraces, ncalls):
     goodl = [e for e in slim if e['ev'] == 'like' and e['tid'] not in badt and e['ret'] == 'num' and not e['big']]
     goodn = [e for e in slim if e['ev'] == 'like' and e['tid'] not in badt and e['ret'] == 'nan']
     if not goodl or not goodn:
+        if any(c['bad'] or c['known'] for c in ctx.clauses.values()):
+            ctx.note('canary skipped: no accepted finite/NaN event left (violations already reported)')
+            return
         raise Machinery('no event available for the canary')
     for which in ('chi', 'written', 'finite_for_invalid'):
         e0 = goodl[len(goodl) // 2] if which != 'finite_for_invalid' else goodn[len(goodn) // 2]
